@@ -197,6 +197,45 @@ func checkC04(c *Ctx, r *Report) {
 		got := gotAdd[root]
 		sort.Slice(got, func(i, j int) bool { return got[i] < got[j] })
 		sort.Slice(want, func(i, j int) bool { return want[i] < want[j] })
+		if root == sw+"close" {
+			// the listener shutdown goroutines (each ends with a deferred Done): one reference per goroutine, taken
+			// either all at once before the loop (Add(len(list)) for the list the loop ranges over) or one by one in the
+			// iteration that spawns it
+			okClose := false
+			why := fmt.Sprint(got)
+			if f := c.Fn(root); f != nil {
+				var spawns []ssa.Instruction
+				for _, g := range findInstrs(f, func(in ssa.Instruction) bool { _, isGo := in.(*ssa.Go); return isGo }) {
+					body := g.(*ssa.Go).Call.StaticCallee()
+					if body != nil && body.Blocks != nil && len(findInstrs(body, func(in ssa.Instruction) bool { _, d := in.(*ssa.Defer); return d && isRefs(in, "Done") })) > 0 {
+						spawns = append(spawns, g)
+					}
+				}
+				adds := findInstrs(f, func(in ssa.Instruction) bool { return isRefs(in, "Add") })
+				if len(spawns) == 1 && len(adds) == 1 {
+					h := iterationOf(f, spawns[0].Block())
+					arg := adds[0].(ssa.CallInstruction).Common().Args[1]
+					switch {
+					case h == nil:
+						why = "the releasing goroutine is not spawned in a loop"
+					case fmt.Sprint(got) == "[-1]":
+						// Add(len(X)) with X what the loop ranges over, before the loop
+						call, isLen := strip(arg).(*ssa.Call)
+						over := rangedOverOf(h)
+						okClose = isLen && calleeKey(call) == "builtin.len" && over != nil && strip(call.Call.Args[0]) == strip(over) && iterationOf(f, adds[0].Block()) != h
+						why = "Add(n): n is not the length of the list the spawning loop ranges over"
+					case fmt.Sprint(got) == "[1]":
+						w, _ := (&Cut{Fn: f, FromEdges: []CFGEdge{{h, 0}}, Target: inSet(spawns), Sep: inSet(adds)}).Run(c)
+						okClose = w == "" && iterationOf(f, adds[0].Block()) == h
+						why = "Add(1) does not precede the spawn in the same iteration"
+					}
+				} else {
+					why = fmt.Sprintf("%d releasing goroutines, %d Add sites", len(spawns), len(adds))
+				}
+			}
+			r4.Check(okClose, "refs.Add in "+root, token.NoPos, len(got)+1, "one reference per listener-closing goroutine", "the number of references taken here no longer matches the Done obligations paired with it", why)
+			continue
+		}
 		r4.Check(fmt.Sprint(got) == fmt.Sprint(want), "refs.Add in "+root, token.NoPos, len(got)+1, fmt.Sprint(want), "the number of references taken here no longer matches the Done obligations paired with it", fmt.Sprint(got))
 	}
 	for root := range gotAdd {
@@ -357,6 +396,58 @@ func checkC04(c *Ctx, r *Report) {
 		w, n := (&Cut{Fn: f, Target: func(in ssa.Instruction) bool { _, ok := in.(*ssa.Return); return ok }, Sep: isDone}).Run(c)
 		r6.Check(w == "", e.fn+": scope.Done() on every path", f.Pos(), n+1, "", "closing no longer releases the resource scope", w)
 	}
+
+	// ---- R7: a connection waiting to be accepted is given up when its listener closes --------------------------
+	// An accepted (upgraded) connection is handed to Accept through a blocking select. If nobody accepts, the only
+	// thing that ends the wait — and lets the other branch close the connection and release its scope — is the
+	// listener's own close signal (or a deadline derived from it). A wait on anything else (the HTTP request's
+	// context of a hijacked connection, a fresh Background context) can outlive Close: the connection, its scope and
+	// the goroutine leak.
+	r7 := r.Rule("C04-R7", "E6", 4, "blocking hand-over of an accepted connection to Accept: every alternative case waits on a signal of the listener itself (a field of the receiver, or a context derived from one)")
+	nSel := 0
+	for _, pkg := range []string{"p2p/transport/websocket", "p2p/net/upgrader", "p2p/transport/tcpreuse", "p2p/transport/webrtc"} {
+		for _, f := range c.FnsOfPkg(pkg) {
+			root := c.Root(f)
+			if root.Signature.Recv() == nil || len(root.Params) == 0 {
+				continue
+			}
+			recv := root.Params[0]
+			if _, tn := typeNameOf(recv.Type()); !strings.Contains(strings.ToLower(tn), "listener") {
+				continue
+			}
+			isRecvField := func(v ssa.Value) bool {
+				fl, base := loadOfField(v)
+				if fl == nil {
+					return false
+				}
+				b := strip(base)
+				return b == ssa.Value(recv) || isParamCellLoad(c, b, recv)
+			}
+			for _, in := range findInstrsIn(f, func(in ssa.Instruction) bool { sel, ok := in.(*ssa.Select); return ok && sel.Blocking }) {
+				sel := in.(*ssa.Select)
+				handsOver := false
+				for _, st := range sel.States {
+					if fl, _ := loadOfField(strip2(st.Chan)); st.Dir == types.SendOnly && fl != nil { // (the queue of this or of a demultiplexed listener)
+						if ms := c.Prog.MethodSets.MethodSet(st.Send.Type()); ms.Lookup(nil, "Close") != nil || ms.Lookup(nil, "CloseWithError") != nil {
+							handsOver = true
+						}
+					}
+				}
+				if !handsOver {
+					continue
+				}
+				nSel++
+				for _, st := range sel.States {
+					if st.Dir != types.RecvOnly {
+						continue
+					}
+					own := derivesFrom(st.Chan, isRecvField, "context.WithTimeout", "context.WithCancel", "context.WithDeadline", "(context.Context).Done")
+					r7.Check(own, fnKey(root)+": the wait for Accept is given up on a signal of the listener", instrPos(in), 1, "", "the wait can outlast the listener's Close: the connection is never closed and its scope never released", describeVal(st.Chan))
+				}
+			}
+		}
+	}
+	r7.Check(nSel >= 4, "blocking hand-over selects found", token.NoPos, nSel, "", "", fmt.Sprint(nSel))
 }
 
 func allAnon(f *ssa.Function) []*ssa.Function {
